@@ -226,6 +226,61 @@ def _atom_str(k):
     return str(k)
 
 
+def vrb1(ctx, lib):
+    """VRB-1: for every printing component the verbose rendering is the non-verbose rendering plus line breaks: same literal text, same holes in the same order.
+    (Sibling agreement of the arms of Component's Display; a verbose arm that prints {min} where the plain arm prints {min,max} changes the language.)"""
+    comp = "component::Component"
+    pl = [b for b in lib.bodies if b.impl_trait == "std::fmt::Display" and b.impl_self == comp and b.path.endswith("::fmt")]
+    if len(pl) != 1:
+        ctx.anchor_lost("VRB-1", "Display of Component")
+        return
+    pl = pl[0]
+    spec = common.spec("roles")
+    adt = lib.adts.get(comp)
+    vnames = [v["name"] for v in adt["variants"]]
+    me = ccp.Sym("self")
+    leaves = [l for l in ccp.Machine([lib], inline=fmtmodel.component_inline).run(pl, [me, ccp.Sym("f")]) if l.kind == "return"]
+    groups = {}
+    for l in leaves:
+        vi = l.fact(ccp.Discr(me))
+        if not isinstance(vi, int) or vi >= len(vnames):
+            continue
+        vn = vnames[vi]
+        if vn not in spec["component_verbose_field"]:
+            continue
+        vf = "self.%s.%d" % (vn, spec["component_verbose_field"][vn])
+        cf = "self.%s.%d" % (vn, spec.get("component_const_field", {}).get(vn, -1))
+        verbose = None
+        rest = []
+        for a, v in l.label:
+            if a == vf:
+                verbose = (v == "True")
+            elif a == cf or a == "discr(self)":
+                continue
+            else:
+                rest.append((a, v))
+        w = [e for e in l.events if e["k"] == "write_fmt"]
+        if len(w) != 1 or not isinstance(w[0]["value"], ccp.Tmpl) or verbose is None:
+            continue
+        parts = w[0]["value"].parts
+        key = tuple(("s", p_.replace("\n", "")) if isinstance(p_, str) else ("h", p_.v.key()) for p_ in parts)
+        key = tuple(k for k in key if k != ("s", ""))
+        groups.setdefault((vn, tuple(rest)), {}).setdefault(verbose, set()).add(key)
+    n = 0
+    for (vn, rest), d in sorted(groups.items()):
+        if True not in d or False not in d:
+            continue
+        n += 1
+        if d[True] == d[False] and len(d[False]) == 1:
+            ctx.ok("VRB-1", "Component::%s|%s" % (vn, ";".join("%s=%s" % kv for kv in rest)), None, pl.loc())
+        else:
+            def sh(ks):
+                return sorted("".join(v if k == "s" else "{}" for k, v in key) for key in ks)
+            ctx.violation("VRB-1", (pl.path, "Component::" + vn), "in verbose mode Component::%s prints %s, without it %s (line breaks aside): the verbose pattern is a different "
+                          "regular expression [%s]" % (vn, sh(d[True]), sh(d[False]), ", ".join("%s=%s" % kv for kv in rest)), pl.loc())
+    ctx.floor("VRB-1", "component arms with a verbose and a non-verbose rendering", n, len(spec["component_verbose_field"]))
+
+
 def run(ctx):
     ctx.rule("VWS-1", "on every verbose path of RegExp::fmt each character the engine ignores under (?x) (White_Space per the table proven equal to regex's, and '#') "
                       "is rewritten: by a str::replace wrapper of the printer or earlier by the symbol escaper")
@@ -240,6 +295,8 @@ def run(ctx):
     roles = common.role_fields(ctx, lib, want=common.FMT_ROLES + ("escape", "surrogate"))
     vws(ctx, prog, lib, roles)
     deciders = grp1(ctx, lib, roles)
+    ctx.rule("VRB-1", "every printing component renders the same text with and without verbose mode, line breaks aside (sibling arms of Component's Display)")
+    vrb1(ctx, lib)
     # PRC-3 (shared with C02): the outer group around a top-level alternation does not depend on the verbose setting (or any other presentation setting)
     from .C02 import prc3
     ctx.rule("PRC-3", "RegExp::fmt wraps the expression in an outer group iff it is an alternation, for every valuation of the presentation settings incl. verbose")
